@@ -76,6 +76,14 @@ def cases(tier, seed):
                     for nonherm in (False, True):
                         out.append(dict(solver="direct", n=n, blocks=list(blocks), deg=deg, basis="biorth", dtypes=dt,
                                         nonhermitian=nonherm, layout="complexE", seed=seed))
+    # two levels of one explicit subspace split by much more than atol but by less than 1e-5 of their magnitude
+    for n in ns:
+        for blocks in ((2,), (2, 1), (3,)):
+            for basis, dts, nonherms in (("orth", ("rr", "cc"), (False, True)), ("biorth", ("cc",), (True,))):
+                for dt in dts:
+                    for nonherm in nonherms:
+                        out.append(dict(solver="direct", n=n, blocks=list(blocks), deg="near-rel", basis=basis, dtypes=dt,
+                                        nonhermitian=nonherm, seed=seed))
     # a degenerate explicit pair whose eigenvectors are localised on disjoint site sets of different size
     for n in ns:
         for blocks in ((2,), (2, 1), (3,), (4,)):
@@ -255,6 +263,9 @@ def make_problem(n, blocks, deg, basis, dtypes, seed, layout=None):
                 E[off + 1] = E[off]
                 break
             off += b
+    elif deg == "near-rel":
+        # two distinct explicit levels of one subspace: far apart on the scale of atol, close on a relative scale
+        E[0], E[1] = 100.0, 100.0004
     elif deg == "triple":
         E[1] = E[0]
         E[2] = E[0]
